@@ -528,3 +528,233 @@ Lemma demo_burn_coins_all_or_nothing :
   option_map (fun s' => (zget (pool s') 7%N, balance (bk s') M_DISTR 7%N, balance (bk s') M_GOV 7%N))
              (haqq_burn_coins s M_GOV [(7%N, 8)]) = Some (20, 20, 0).
 Proof. vm_compute. repeat split; reflexivity. Qed.
+
+(** * user level: signed sends, the ERC20 parameter, blocked addresses *)
+
+(** the rule: a send to a blocked address is refused in every state, under both values of the flag *)
+Lemma send_to_blocked_rejected u a c d x paired conv : blocked c = true -> ustep u (UMsgSend a c d x paired conv) = None.
+Proof. intros Hc. cbn [ustep]. unfold u_send. rewrite Hc. reflexivity. Qed.
+
+Lemma multisend_to_blocked_rejected u a d outs : any_blocked outs = true -> ustep u (UMsgMultiSend a d outs) = None.
+Proof. intros Hc. cbn [ustep]. unfold u_multisend. rewrite Hc. reflexivity. Qed.
+
+Lemma rejects_blocked_sound o : rejects_blocked o = true -> forall u, ustep u o = None.
+Proof.
+  destruct o; cbn [rejects_blocked]; intros H' u; try discriminate.
+  - by apply send_to_blocked_rejected.
+  - by apply multisend_to_blocked_rejected.
+Qed.
+
+(** what the accounting invariants of the modules read: the community pool, the outstanding rewards, the supply
+    and the balances of the blocked accounts.  The escrow account of the erc20 module is left out: ConvertCoin,
+    which Haqq's MsgSend runs for a paired denomination, is that module's own operation and pays into it. *)
+Definition ModView (s s' : st) : Prop :=
+  pool s' = pool s /\ outst s' = outst s /\ sup (bk s') = sup (bk s) /\
+  forall m d, blocked m = true -> m <> M_ERC20 -> balance (bk s') m d = balance (bk s) m d.
+
+Lemma modview_refl s : ModView s s.
+Proof. repeat split. Qed.
+Lemma modview_trans s1 s2 s3 : ModView s1 s2 -> ModView s2 s3 -> ModView s1 s3.
+Proof.
+  intros (P1 & O1 & S1 & B1) (P2 & O2 & S2 & B2). repeat split; try congruence.
+  intros m d Hm Hne. rewrite B2, B1; done.
+Qed.
+
+Lemma s_send_modview s a c d x s' :
+  blocked a = false -> (blocked c = false \/ c = M_ERC20) -> s_send s a c d x = Some s' -> ModView s s'.
+Proof.
+  intros Ha Hc H'. pose proof (s_send_frame _ _ _ _ _ _ H') as [Hp Ho]. unfold s_send in H'.
+  apply bind_Some in H' as (b & Hb & E). inversion E; subst s'; clear E. cbn in *.
+  destruct (send_spec _ _ _ _ _ _ Hb) as (_ & _ & Hs & Hbal).
+  split; [done|]. split; [done|]. split; [done|]. intros m d' Hm Hne. rewrite Hbal.
+  rewrite (decide_False (P := a = m /\ d = d')) by (intros [-> _]; congruence).
+  rewrite (decide_False (P := c = m /\ d = d')); [lia|].
+  intros [-> _]. destruct Hc as [Hc|Hc]; congruence.
+Qed.
+
+Lemma any_blocked_cons c x r : any_blocked ((c, x) :: r) = blocked c || any_blocked r.
+Proof. reflexivity. Qed.
+
+Lemma s_pay_out_modview outs : forall s a d s',
+  blocked a = false -> any_blocked outs = false -> s_pay_out s a d outs = Some s' -> ModView s s'.
+Proof.
+  induction outs as [|[c x] r IH]; intros s a d s' Ha Hb H'; cbn [s_pay_out] in H'.
+  - inversion H'; subst. apply modview_refl.
+  - rewrite any_blocked_cons in Hb. apply orb_false_elim in Hb as [Hc Hr].
+    apply bind_Some in H' as (s1 & H1 & H2). eapply modview_trans.
+    + eapply s_send_modview; [exact Ha| left; exact Hc | exact H1].
+    + exact (IH s1 a d s' Ha Hr H2).
+Qed.
+
+Lemma negb_blocked a : negb (blocked a) = true -> blocked a = false.
+Proof. by destruct (blocked a). Qed.
+
+(** one accepted user operation (a parameter change, a send, a multi-send) leaves that view untouched *)
+Lemma user_step_modview u o u' :
+  is_user_op o = true -> signed_by_user o = true -> ustep u o = Some u' -> ModView (ust_st u) (ust_st u').
+Proof.
+  destruct o; cbn [is_user_op signed_by_user ustep]; intros Hu Hs H'; try discriminate.
+  - inversion H'; subst. apply modview_refl.
+  - apply negb_blocked in Hs. apply bind_Some in H' as (s1 & H1 & E). inversion E; subst u'; clear E. cbn [ust_st].
+    unfold u_send in H1. destruct (blocked c) eqn:Hc; [discriminate|].
+    destruct (erc20_on u && paired).
+    + eapply s_send_modview; [exact Hs | by right | exact H1].
+    + eapply s_send_modview; [exact Hs | by left | exact H1].
+  - apply negb_blocked in Hs. apply bind_Some in H' as (s1 & H1 & E). inversion E; subst u'; clear E. cbn [ust_st].
+    unfold u_multisend in H1. destruct (any_blocked outs) eqn:Hb; [discriminate|].
+    destruct (negb (forallb _ outs)); [discriminate|].
+    destruct (balance (bk (ust_st u)) a d <? total_out outs); [discriminate|].
+    eapply s_pay_out_modview; eauto.
+Qed.
+
+Definition users_only (ops : list uop) : Prop := forall o, In o ops -> is_user_op o = true /\ signed_by_user o = true.
+
+(** ALL histories of user operations, whatever the parameter is set to along the way: the balances of the module
+    accounts, the community pool, the outstanding rewards and the supply are what they were *)
+Theorem user_histories_modview ops : forall u, users_only ops -> ModView (ust_st u) (ust_st (urun ops u)).
+Proof.
+  induction ops as [|o r IH]; intros u Hall; [apply modview_refl|].
+  change (urun (o :: r) u) with (urun r (ustep_total u o)).
+  assert (users_only r) as Hr by (intros o' Hin; apply Hall; by right).
+  unfold ustep_total. destruct (ustep u o) as [u'|] eqn:E; cbn [default].
+  - eapply modview_trans; [|apply IH, Hr]. destruct (Hall o (or_introl eq_refl)) as [H1 H2].
+    eapply user_step_modview; eauto.
+  - apply IH, Hr.
+Qed.
+
+(** ... hence in histories that MIX user operations, parameter changes and module operations every property that
+    reads only that view and is preserved by the module operations of the history is preserved by the history:
+    module accounts change only through module operations *)
+Theorem module_view_invariants_preserved (P : st -> Prop) ops :
+  (forall s s', ModView s s' -> P s -> P s') ->
+  (forall o, In (UMod o) ops -> forall s s', hstep s o = Some s' -> P s -> P s') ->
+  (forall o, In o ops -> signed_by_user o = true) ->
+  forall u, P (ust_st u) -> P (ust_st (urun ops u)).
+Proof.
+  intros Hview. induction ops as [|o r IH]; intros Hmod Hsig u HP; [done|].
+  change (urun (o :: r) u) with (urun r (ustep_total u o)).
+  apply IH.
+  - intros o' Hin. apply Hmod. by right.
+  - intros o' Hin. apply Hsig. by right.
+  - unfold ustep_total. destruct (ustep u o) as [u'|] eqn:E; cbn [default]; [|done].
+    destruct (is_user_op o) eqn:Hu.
+    + eapply Hview; [|exact HP]. eapply user_step_modview; eauto. apply Hsig. by left.
+    + destruct o; try discriminate. cbn [ustep] in E. apply bind_Some in E as (s1 & H1 & E).
+      inversion E; subst u'; clear E. cbn [ust_st]. eapply (Hmod o); [by left|exact H1|exact HP].
+Qed.
+
+(** the registered invariants of the SDK as far as this model has their ingredients *)
+Definition DistrEq (s : st) : Prop := forall d, balance (bk s) M_DISTR d = zget (pool s) d + zget (outst s) d.
+
+Lemma modview_distr_eq s s' : ModView s s' -> DistrEq s -> DistrEq s'.
+Proof. intros (Hp & Ho & _ & Hb) I d. rewrite Hp, Ho, Hb; [apply I|reflexivity|by vm_compute]. Qed.
+Lemma modview_distr_inv s s' : ModView s s' -> DistrInv s -> DistrInv s'.
+Proof. intros (Hp & Ho & _ & Hb) I d. rewrite Hp, Ho, Hb; [apply I|reflexivity|by vm_compute]. Qed.
+
+Theorem user_histories_preserve_module_accounts ops u : users_only ops ->
+  let u' := urun ops u in
+  (DistrEq (ust_st u) -> DistrEq (ust_st u')) /\
+  (forall m d, In m [M_FEECOLL; M_DISTR; M_BONDED; M_NOTBONDED; M_GOV; M_COINOMICS; M_DAO; M_LV; M_EVM; M_TRANSFER; M_ICA; M_VESTING] ->
+     balance (bk (ust_st u')) m d = balance (bk (ust_st u)) m d) /\
+  pool (ust_st u') = pool (ust_st u) /\ outst (ust_st u') = outst (ust_st u) /\ sup (bk (ust_st u')) = sup (bk (ust_st u)).
+Proof.
+  intros Hall u'. pose proof (user_histories_modview ops u Hall) as V. fold u' in V.
+  split; [apply modview_distr_eq, V|]. destruct V as (Hp & Ho & Hs & Hb). split; [|done].
+  intros m d Hin. apply Hb.
+  - cbn in Hin. repeat (destruct Hin as [<-|Hin]; [reflexivity|]). destruct Hin.
+  - cbn in Hin. repeat (destruct Hin as [<-|Hin]; [by vm_compute|]). destruct Hin.
+Qed.
+
+(** mixed histories: the distribution account stays able to pay as long as no MODULE operation of the history
+    debits it; no condition on the user operations and on the parameter *)
+Theorem mixed_histories_preserve_distr_inv ops :
+  (forall o, In (UMod o) ops -> debits_distr o = false) ->
+  (forall o, In o ops -> signed_by_user o = true) ->
+  forall u, DistrInv (ust_st u) -> DistrInv (ust_st (urun ops u)).
+Proof.
+  intros Hd Hs. apply (module_view_invariants_preserved DistrInv ops).
+  - apply modview_distr_inv.
+  - intros o Hin s s' H' I. eapply keeps_distr_inv; [|exact I]. eapply hstep_keeps; [|exact H']. by apply Hd.
+  - exact Hs.
+Qed.
+
+(** the supply invariant through mixed histories *)
+Lemma s_pay_out_inv outs : forall s a d s', s_pay_out s a d outs = Some s' -> SInv s -> SInv s'.
+Proof.
+  induction outs as [|[c x] r IH]; intros s a d s' H' I; cbn [s_pay_out] in H'.
+  - inversion H'; subst; exact I.
+  - apply bind_Some in H' as (s1 & H1 & H2). eapply IH; [exact H2|]. eapply s_send_inv; eauto.
+Qed.
+
+Lemma ustep_inv u o u' : ustep u o = Some u' -> SInv (ust_st u) -> SInv (ust_st u').
+Proof.
+  destruct o; cbn [ustep]; intros H' I.
+  - apply bind_Some in H' as (s1 & H1 & E). inversion E; subst u'. cbn. eapply hstep_inv; eauto.
+  - inversion H'; subst. exact I.
+  - apply bind_Some in H' as (s1 & H1 & E). inversion E; subst u'. cbn. unfold u_send in H1.
+    destruct (blocked c); [discriminate|]. destruct (erc20_on u && paired); eapply s_send_inv; eauto.
+  - apply bind_Some in H' as (s1 & H1 & E). inversion E; subst u'. cbn. unfold u_multisend in H1.
+    destruct (any_blocked outs); [discriminate|]. destruct (negb _); [discriminate|].
+    destruct (_ <? _); [discriminate|]. eapply s_pay_out_inv; eauto.
+Qed.
+
+Theorem mixed_histories_preserve_supply_inv ops : forall u,
+  SupplyInv (bk (ust_st u)) -> NonNeg (bk (ust_st u)) ->
+  SupplyInv (bk (ust_st (urun ops u))) /\ NonNeg (bk (ust_st (urun ops u))).
+Proof.
+  induction ops as [|o r IH]; intros u I1 I2; [done|].
+  change (urun (o :: r) u) with (urun r (ustep_total u o)).
+  unfold ustep_total. destruct (ustep u o) as [u'|] eqn:E; cbn [default]; [|by apply IH].
+  destruct (ustep_inv _ _ _ E (conj I1 I2)) as [J1 J2]. by apply IH.
+Qed.
+
+(** non-vacuity: user 1 is funded; governance disables the ERC20 module; a send to the distribution account and
+    one to the bonded pool are refused, a send to user 2 goes through; the module is enabled again, the send to
+    the distribution account is refused again, a multi-send with the not-bonded pool among its outputs too *)
+Definition demo_uops : list uop :=
+  [ UMod (HMint M_COINOMICS BASE 1000); UMod (HSend M_COINOMICS 1 BASE 1000);
+    UMod (HSend 1 M_DISTR BASE 100);                              (* a module operation pays the distribution account *)
+    UParamErc20 false;
+    UMsgSend 1 M_DISTR BASE 5 false 0; UMsgSend 1 M_BONDED BASE 5 false 0; UMsgSend 1 2 BASE 5 false 0;
+    UParamErc20 true;
+    UMsgSend 1 M_DISTR BASE 5 false 0; UMsgMultiSend 1 BASE [(2, 3%Z); (M_NOTBONDED, 4%Z)]; UMsgMultiSend 1 BASE [(2, 3%Z); (3, 4%Z)];
+    UMsgSend 1 3 7 6 true 0 ]%N.
+
+Definition u0 : ust := mkust st0 true.
+
+Definition accepted_flags (ops : list uop) (u : ust) : list bool :=
+  (fix go (u : ust) (l : list uop) : list bool :=
+     match l with [] => [] | o :: r => match ustep u o with Some u' => true :: go u' r | None => false :: go u r end end) u ops.
+
+Lemma demo_uops_flags :
+  accepted_flags demo_uops u0 = [true; true; true; true; false; false; true; true; false; false; true; true] /\
+  (let u := urun demo_uops u0 in
+   (balance (bk (ust_st u)) 1%N BASE, balance (bk (ust_st u)) 2%N BASE, balance (bk (ust_st u)) 3%N BASE,
+    balance (bk (ust_st u)) M_DISTR BASE, balance (bk (ust_st u)) M_BONDED BASE, balance (bk (ust_st u)) M_NOTBONDED BASE,
+    erc20_on u)) = (888, 8, 4, 100, 0, 0, true).
+Proof. vm_compute. split; reflexivity. Qed.
+
+(** why the rule matters: the same step function WITHOUT the check of the recipient when the ERC20 module is
+    disabled (the check moved behind that early return) lets a user break the equality of the distribution account *)
+Definition u_send_late_check (u : ust) (a c d : N) (x : Z) (paired : bool) (conv : Z) : option st :=
+  if negb (erc20_on u) then s_send (ust_st u) a c d x else u_send u a c d x paired conv.
+
+Definition late_u : ust :=
+  urun [UMod (HMint M_COINOMICS BASE 1000); UMod (HSend M_COINOMICS 1 BASE 1000); UParamErc20 false]%N u0.
+Definition distr_sides (s : st) : Z * Z := (balance (bk s) M_DISTR BASE, zget (pool s) BASE + zget (outst s) BASE).
+
+Lemma late_check_data :
+  distr_sides (ust_st late_u) = (0, 0) /\
+  option_map distr_sides (u_send_late_check late_u 1%N M_DISTR BASE 5 false 0) = Some (5, 0) /\
+  ustep late_u (UMsgSend 1%N M_DISTR BASE 5 false 0) = None.
+Proof. vm_compute. repeat split; reflexivity. Qed.
+
+Lemma late_check_breaks_distr_eq :
+  exists s', u_send_late_check late_u 1%N M_DISTR BASE 5 false 0 = Some s' /\ ~ DistrEq s' /\
+             ustep late_u (UMsgSend 1%N M_DISTR BASE 5 false 0) = None.
+Proof.
+  destruct late_check_data as (_ & H2 & H3).
+  destruct (u_send_late_check late_u 1%N M_DISTR BASE 5 false 0) as [s'|]; [|discriminate].
+  exists s'. split; [reflexivity|]. split; [|exact H3].
+  intros I. specialize (I BASE). cbn [option_map] in H2. unfold distr_sides in H2. inversion H2 as [[Hb Hp]]. lia.
+Qed.
